@@ -48,9 +48,8 @@ mut("b_contains_dups_all", "src/collection/retry.rs",
 mut("b_raw_write_assert_to_if", "src/mutex/mutex.rs",
     "\t\tassert!(!self.poison.is_poisoned(), \"The mutex has been killed\");",
     "\t\tif self.poison.is_poisoned() {\n\t\t\tpanic!(\"The mutex has been killed\");\n\t\t}")
-mut("b_retry_unlock_reverse", "src/collection/retry.rs",
-    "\tunsafe fn raw_unlock_write(&self) {\n\t\tlet locks = get_locks_unsorted(&self.data);\n\n\t\tfor lock in locks {\n\t\t\tlock.raw_unlock_write();\n\t\t}",
-    "\tunsafe fn raw_unlock_write(&self) {\n\t\tlet locks = get_locks_unsorted(&self.data);\n\n\t\tfor lock in locks.iter().rev() {\n\t\t\tlock.raw_unlock_write();\n\t\t}")
+# (b_retry_unlock_reverse was removed: releasing in reverse order changes WHICH members stay locked when one release panics -
+#  a different failing history of the known defect G9, which the exact Q4 variants rightly report as a different finding)
 mut("b_ordered_write_single_fast_path", "src/collection/utils.rs",
     "pub unsafe fn ordered_write(locks: &[&dyn RawLock]) {\n\t// these will be unlocked in case of a panic\n\tlet locked = Cell::new(0);\n",
     "pub unsafe fn ordered_write(locks: &[&dyn RawLock]) {\n\tif locks.len() == 1 {\n\t\treturn locks[0].raw_write();\n\t}\n\t// these will be unlocked in case of a panic\n\tlet locked = Cell::new(0);\n")
